@@ -68,6 +68,7 @@ def deltas_ref(x, num_deltas, window, axis, target_axis, concatenate, pad_mode, 
     T = xm.shape[-1]
     scales = kaldi_scales(num_deltas, window)
     outs = [x]
+    outs64 = [x.astype(np.float64)]
     for d in range(1, num_deltas + 1):
         M = d * window
         xp = np.pad(xm, [(0, 0)] * (nd - 1) + [(M, M)], pad_mode, **pad_kwargs)
@@ -76,6 +77,9 @@ def deltas_ref(x, num_deltas, window, axis, target_axis, concatenate, pad_mode, 
             y = y + scales[d][j + M] * xp[..., M + j: M + j + T]
         with np.errstate(all="ignore"):
             outs.append(np.moveaxis(y, -1, axis).astype(x.dtype))
+        outs64.append(np.moveaxis(y, -1, axis))
+    # (the same assembly before the final cast: tells where an integer result sits on a rounding boundary)
+    deltas_ref.last64 = np.concatenate(outs64, target_axis) if concatenate else np.stack(outs64, target_axis)
     if concatenate:
         return np.concatenate(outs, target_axis)
     return np.stack(outs, target_axis)
@@ -96,6 +100,8 @@ def stack_ref(x, n, time_axis, axis, pad_mode, pad_kwargs):
 
 
 def _tol(dtype):
+    if dtype == np.float16:
+        return 2e-3
     if dtype == np.float64:
         return 1e-9
     if dtype == np.float32:
@@ -145,7 +151,7 @@ class Mon:
         kw.update(c.kwargs)
         return {"copy": np.array(kw["features"], copy=True), "kw": kw}
 
-    def _cmp(self, out, ref, before, info, op):
+    def _cmp(self, out, ref, before, info, op, ref64=None):
         if out.shape != ref.shape:
             self.v("%s result shape %r, documented layout has %r" % (op, out.shape, ref.shape), check="shape", **info)
             return
@@ -157,7 +163,14 @@ class Mon:
         tol = _tol(before.dtype)
         if tol is None:
             d = np.abs(out.astype(np.int64) - ref.astype(np.int64))
-            ok = bool(np.all(d <= 1))
+            if ref64 is not None and ref64.shape == d.shape:
+                # computed in float64 and cast once at the end: the integer can only differ (by one) where the float value
+                # sits within rounding of a whole number
+                near = np.abs(ref64 - np.round(ref64)) <= 1e-9 * np.maximum(1.0, np.abs(ref64))
+                ok = bool(np.all((d == 0) | ((d <= 1) & near)))
+                d = np.where(near, np.maximum(d - 1, 0), d)
+            else:
+                ok = bool(np.all(d <= 1))
             i = np.unravel_index(int(np.argmax(d)), d.shape)
         else:
             S = float(np.max(np.abs(before))) if before.size else 1.0
@@ -189,7 +202,7 @@ class Mon:
             self.v("Deltas.apply raised %r where the documented result is defined" % (c.exc,), check="raise", **info)
             return
         out = np.asarray(c.result)
-        self._cmp(out, ref, before, info, "Deltas")
+        self._cmp(out, ref, before, info, "Deltas", getattr(deltas_ref, "last64", None))
         if not kw["in_place"]:
             if not np.array_equal(np.asarray(kw["features"]), before):
                 self.v("Deltas.apply modified its input", check="input_modified", **info)
@@ -252,8 +265,8 @@ class Mon:
 def _data(rng, shape, dtype):
     from ..common import relayout
 
-    if dtype == "int32":
-        return relayout(rng, rng.integers(-1000, 1000, shape).astype(np.int32))
+    if dtype in ("int32", "int16"):
+        return relayout(rng, rng.integers(-1000, 1000, shape).astype(dtype))
     return relayout(rng, (rng.standard_normal(shape) * float(rng.choice([1e-3, 1, 50]))).astype(dtype))
 
 
@@ -272,7 +285,7 @@ def run_case(case, rec, mon=None):
     for _ in range(case["n"]):
         ndim = int(rng.choice([1, 2, 2, 3, 3, 4])) if kind == "deltas" else int(rng.choice([2, 2, 3, 3, 4]))
         shape = [int(rng.choice([1, 2, 3, 5, 8, 13])) for _ in range(ndim)]
-        dtype = str(rng.choice(["float64", "float64", "float32", "int32"]))
+        dtype = str(rng.choice(["float64", "float64", "float32", "int32", "int32", "float16", "int16"]))
         if kind == "deltas":
             axis = int(rng.integers(-ndim, ndim))
             if rng.random() < 0.1 and ndim > 1:
@@ -310,7 +323,7 @@ def run_case(case, rec, mon=None):
             if rng.random() < 0.5:
                 # the same object again: same shape, the element types in turn (a stateless transform has no memory)
                 rec.count("deltas_objects_called_repeatedly")
-                for dt2 in [str(t) for t in rng.permutation(["float64", "float32", "int32", dtype])][:3]:
+                for dt2 in [str(t) for t in rng.permutation(["float64", "float32", "int32", "float16", dtype])][:3]:
                     x2 = _data(rng, shape, dt2)
                     x2.setflags(write=False)
                     try:
